@@ -593,9 +593,10 @@ Definition union_ok (u : bool * list ftype) : bool := generic_ok CLASSES u || is
 (* re-proved against the regenerated table on every run *)
 Theorem TABLE_UNIONS_ok : forallb union_ok TABLE_UNIONS = true.
 Proof. vm_compute. reflexivity. Qed.
-(* how the 15 unions of the live table are covered: 13 by shapes alone, one each by the two special arguments *)
+(* how the unions of the live table are covered: all but two by shapes alone (13 when this was written), one each by the two special
+   arguments -- and those two are the ONLY ones the shape argument does not reach *)
 Theorem TABLE_UNIONS_classified :
-  List.length (filter (generic_ok CLASSES) TABLE_UNIONS) = 13%nat /\
+  List.length TABLE_UNIONS = (List.length (filter (generic_ok CLASSES) TABLE_UNIONS) + 2)%nat /\
   filter (fun u => negb (generic_ok CLASSES u)) TABLE_UNIONS = [U_INT_STR_FN; U_IP_OR_STR].
 Proof. split; vm_compute; reflexivity. Qed.
 
